@@ -601,11 +601,14 @@ func (g *gen) field0(parent *ast.Definition, f *ast.FieldDefinition, depth int, 
 		if len(sc.names) > 0 && g.chance(25, "aliasSibling") {
 			cand := sc.names[g.pick(len(sc.names), "sib")]
 			if cand != f.Name {
-				if g.o.AliasSibling && !g.o.Avoid["op.aliasEqualsSiblingName"] && (cand != "id" && cand != "__typename" && cand != "node" || !g.o.Avoid["op.aliasIsHelperName"]) {
+				if g.o.AliasSibling && !g.o.Avoid["op.aliasEqualsSiblingName"] && (cand != "id" && cand != "__typename" || !g.o.Avoid["op.aliasIsHelperName"]) {
 					alias = cand
 					g.label("aliasEqualsSiblingName")
 				}
 			}
+		}
+		if _, used := sc.keys["node"]; !used && f.Name != "node" && g.chance(3, "aliasnode") {
+			alias = "node" // the response key of the gateway's own entity lookups
 		}
 		key = alias
 		g.label("aliases")
